@@ -17,7 +17,7 @@ vars == <<i, bad, odd>>
 \* kind "big": [kind, src, desc |-> [n, image_bytes, strings, labels, head], result |-> summary] - see BigAllowed in Arc3ds.tla
 KindOK(ev) ==
   IF ev.kind = "big" THEN BigImageOK(ev.desc)
-  ELSE IF ev.kind = "ok" THEN Conforms(ev.content)
+  ELSE IF ev.kind \in {"ok", "overlap"} THEN Conforms(ev.content)
   ELSE /\ ev.kind \in {"nocount", "noinfo", "noname", "nameptr", "end", "start", "words", "wrapsum"}
        /\ IsErrorLayout(ev.content) /\ ~EmptyRangePastEnd(ev.content)
        /\ Extract(ev.content).err = (CASE ev.kind = "nocount" -> "NoCount" [] ev.kind = "noinfo" -> "NoInfo"
